@@ -6,6 +6,7 @@ manifest all come from the JSON TLC printed.  This module builds inputs, runs th
 """
 import contextlib
 import io
+import itertools
 import random
 import re
 import struct
@@ -305,8 +306,6 @@ def _to_matrix(vals, sh, k):
     """File order = itertools.product over sh (outermost first); container index = reversed file index."""
     fsh = tuple(reversed(sh))
     arr = np.zeros(fsh, dtype=(np.int64 if k == "int" else np.float64))
-    import itertools
-
     for v, idx in zip(vals, itertools.product(*[range(n) for n in sh])):
         arr[tuple(reversed(idx))] = v
     return arr
@@ -332,9 +331,7 @@ def _read_field(rec, f, drop=0):
     if c == "l" or drop:
         return list(rec.rwList(None, k, n, f["w"]))
     arr = {"float": rec.rwMatrix, "double": rec.rwDoubleMatrix, "int": rec.rwIntMatrix}[k](None, *f["sh"])
-    import itertools
-
-    return [arr[tuple(reversed(idx))] for idx in itertools.product(*[range(m) for m in f["sh"])]
+    return [arr[tuple(reversed(idx))] for idx in itertools.product(*[range(m) for m in f["sh"]])]
 
 
 def same_value(k, exact, enc, wrote, got):
